@@ -8,14 +8,11 @@ import UnytProofs.Lemmas.C14Chunk08  -- build order only: at most four chunks ar
 namespace Unyt.C14
 
 /-- every listed name of chunk 12 (four slices of 64 rows) is read by the string route and by the
-    three attribute routes as the independent reference reads it (guard: word-prefixed °C) -/
+    three attribute routes as the independent reference reads it -/
 theorem names_slice_12_0 : namesSliceOk 12 0 = true := by decide +kernel
 theorem names_slice_12_1 : namesSliceOk 12 1 = true := by decide +kernel
 theorem names_slice_12_2 : namesSliceOk 12 2 = true := by decide +kernel
 theorem names_slice_12_3 : namesSliceOk 12 3 = true := by decide +kernel
-
-/-- every excluded name of chunk 12 really is unusable as a unit string -/
-theorem exclusions_chunk_12 : exclusionsChunkOk 12 = true := by decide +kernel
 
 /-- prefix spellings 3·12 … 3·12+2 (symbols, then word forms) are rejected on every
     non-prefixable spelling (three slices of 110 spelling rows) -/
